@@ -58,8 +58,9 @@ def main():
                 env = dict(os.environ, ASAN_OPTIONS="detect_leaks=0:abort_on_error=0", VERIF_BUILD_DIR=bd)
                 rr = sh("%s/%s/%s replay %s" % (bd, cfgdir, prop, rep), env=env, cwd=ROOT)
                 ok = rr.returncode != 0
-                bad += 0 if ok else 1
-                print("%-4s %s %-52s %s" % (f["id"], prop, os.path.basename(rep), "fails without the fix (good)" if ok else "PASSES WITHOUT THE FIX: stale reproducer"))
+                noted = (not ok) and "note" in f   # a later fix subsumes this one: explained in known_findings.json
+                bad += 0 if (ok or noted) else 1
+                print("%-4s %s %-52s %s" % (f["id"], prop, os.path.basename(rep), "fails without the fix (good)" if ok else ("passes without the fix - see the entry's note in known_findings.json" if noted else "PASSES WITHOUT THE FIX: stale reproducer")))
         sh("git -C /repo worktree remove --force %s" % wt)
         shutil.rmtree(bd, ignore_errors=True)
     sh("git -C /repo worktree prune")
